@@ -140,7 +140,7 @@ Quiet == /\ Ev.e = "quiet"
          /\ Skip
 
 Epilogue == /\ Ev.e = "epi"
-            /\ Fail(Pr!EpilogueClause(T.epi.connected))
+            /\ Fail(Pr!EpilogueClause(T.epi.connected, T.epi.fully))
             /\ UNCHANGED <<words, act, nstim>>
             /\ Skip
 
